@@ -400,7 +400,8 @@ def plan_gc(run, prop, tier):
     return acc
 
 
-def cfg_world(cap, labels=("a",), vals=("x",), nh=2, props=("FreshIds", "OnlyReadsShrink", "CopyIsExact", "Independent", "SliceExact")):
+def cfg_world(cap, labels=("a",), vals=("x",), nh=2, props=("FreshIds", "OnlyReadsShrink", "CopyIsExact", "Independent", "SliceExact",
+                                                                 "MergeOnlyAdds", "MergeCarriesAll", "MergeTreeInjective")):
     s = (f"SPECIFICATION WSpec\nVIEW wview\nCONSTANTS Cap = {cap} Labels = {tla_set(labels)} Vals = {tla_set(vals)} NHandles = {nh} "
          "MaxN = 1 MaxGroups = 14 MaxGroupSize = 16\nINVARIANT WTypeOK\nINVARIANT IssuedBelowPos\n")
     for p_ in props:
@@ -410,11 +411,16 @@ def cfg_world(cap, labels=("a",), vals=("x",), nh=2, props=("FreshIds", "OnlyRea
 
 def e1_world(run, acc, tier):
     r = vlib.model_check(run, "World", cfg_world(2))
-    acc.add_e1("World[2 ids, 2 handles: 5 mutators + clone + save/load + slice]", r)
-    need = {"WClone", "WReload", "WSlice", "WNextId", "WData"}
+    acc.add_e1("World[2 ids, 2 handles: 5 mutators + clone + save/load + slice + merge]", r)
+    need = {"WClone", "WReload", "WSlice", "WNextId", "WData", "WMerge"}
     missing = [a for a in need if r["actions"].get(a, (0, 0))[1] == 0]
     if missing:
         raise ToolError(f"vacuity: World actions never taken: {missing}")
+    # a merge that reports Err must exist in the instance (forest on the right), or the merge clauses say nothing
+    r2 = vlib.model_check(run, "World", cfg_world(2, props=("ProbeMergeAlwaysOk",)), must_hold=False, coverage=False)
+    if r2["ok"]:
+        raise ToolError("vacuity: World never produced a merge that reports Err")
+    acc.add_e1("World[probe: every merge reports Ok] (must be rejected)", r2, expect_error=True)
 
 
 def twin_plan(tier, s):
@@ -541,6 +547,8 @@ def plan_merge(run, prop, tier):
     """C11/C12: TLC enumerates every scenario (two trees + extras, data placements incl. already-read data, every `left`),
     checks the contract on the model (E1) and prints the expected result; the harness executes every scenario."""
     acc = Acc()
+    # merge as an action of the multi-handle model: only adds, carries every edge and datum when Ok, Err names what was missed
+    e1_world(run, acc, tier)
     if prop == "C11":
         e4_merge(run, acc, "trees g<=2 x h<=3, reads", cfg_mergegen(6, [0, 1], [1, 2, 3], 2, 3, 0, True), [(2, 6, 0), (2, 9, 1), (16, 64, 2)])
         e4_merge(run, acc, "trees g<=2 x h<=2 + extras<=2", cfg_mergegen(6, [0, 1], [0, 1, 2, 3], 2, 2, 2, False), [(2, 6, 1)], stride=3)
